@@ -33,6 +33,10 @@ def run(tier, seed, replay=None):
         src = os.path.join(WORK, "traces", "C03-replay-in.ndjson")
         with open(src, "w") as f:
             f.write("\n".join(lines) + "\n")
+        if meta.get("sub") == "parse":
+            r.gen_validate("replay", ["parse", "--replay", "--c02"], "Trace_Tree.tla", "Trace_Tree.cfg", 1, classify, core.count_lines,
+                           stdin_files=[src], also=[("Trace_Parse.tla", "Trace_Parse.cfg")])
+            return r.finish(RULE, write=False)
         r.gen_validate("replay", ["tok", "--replay", "--fields", "sched"], SPEC, CFG, 1, classify, count_refs, stdin_files=[src],
                        )
         return r.finish(RULE, write=False)
@@ -61,6 +65,13 @@ def run(tier, seed, replay=None):
                        SPEC, CFG, N * 4, classify, count_refs, case_key="group", timeout=6000, xmx="4g")
         r.gen_validate("prefixed-k3", ["tok", "--mode", "prefixed", "--k", 3, "--pieces", 12, "--chunk", "some"] + F, SPEC, CFG, N * 4,
                        classify, count_refs, case_key="group", timeout=6000, xmx="4g")
+    # final tree: the real parser fed in chunks (every 1-character chunking, single cuts, random cuts) must deliver the
+    # tree the L0 parser computes for the concatenated input
+    PT = [("Trace_Parse.tla", "Trace_Parse.cfg")]
+    r.gen_validate("tree-pairs-1char", ["parse", "--c02", "--mode", "enum", "--k", 2, "--pieces", 14 if quick else 30, "--chunk", "chars"],
+                   "Trace_Tree.tla", "Trace_Tree.cfg", N, classify, core.count_lines, timeout=5000, xmx="4g", also=PT)
+    r.gen_validate("tree-random-cuts", ["parse", "--c02", "--mode", "random", "--n", 250 if quick else 6000, "--maxpieces", 30, "--chunk", "some"],
+                   "Trace_Tree.tla", "Trace_Tree.cfg", N, classify, core.count_lines, timeout=5000, xmx="4g", also=PT)
     r.assumptions = ["parse errors are compared only between two runs of the same build and options (their wording is html5ever's)",
                      "character-token boundaries legitimately depend on chunking: character data is compared per maximal group, "
                      "with the line reported for the group's last token",
